@@ -1,6 +1,6 @@
 use crate::adt::FieldPosition;
 use crate::deserializer::DeserializationContext;
-use crate::serializer::SerializationContext;
+use crate::serializer::{SerializationContext, StoreStringResult};
 use crate::{BinaryDeserializer, BinaryInput, BinaryOutput, BinarySerializer, DeduplicatedString};
 
 #[derive(Debug)]
@@ -47,6 +47,23 @@ pub(crate) enum SerializedEvolutionStep {
 const UNKNOWN: i32 = 0;
 const FIELD_MADE_OPTIONAL: i32 = -1;
 const FIELD_REMOVED: i32 = -2;
+
+impl SerializedEvolutionStep {
+    /// Writes a `FieldRemoved` step whose name was already registered in the string table
+    pub(crate) fn serialize_field_removed<Output: BinaryOutput>(
+        name: StoreStringResult,
+        context: &mut SerializationContext<Output>,
+    ) -> crate::Result<()> {
+        context.write_var_i32(FIELD_REMOVED);
+        match name {
+            StoreStringResult::StringAlreadyStored { id } => {
+                context.write_var_i32(-id.0);
+                Ok(())
+            }
+            StoreStringResult::StringIsNew { value, .. } => value.serialize(context),
+        }
+    }
+}
 
 impl BinarySerializer for SerializedEvolutionStep {
     fn serialize<Output: BinaryOutput>(
